@@ -7,7 +7,6 @@ package main
 
 import (
 	"fmt"
-	"strings"
 
 	"github.com/evanw/esbuild/pkg/api"
 	. "github.com/evanw/esbuild/verifharness/hlib"
@@ -81,6 +80,8 @@ var typedUntypedPairsTS = []pair{
 	{"declare namespace A.B.C.D { type T = 1 } import X = A.B.C.D.T; let t: X[];", "let t;"},
 	{"declare namespace A { type T = 1 } import X = A.T; let t: X;", "let t;"},
 	{"namespace A { export namespace B { export const v = 1 } } import X = A.B.v; let t: typeof X = X;", "namespace A { export namespace B { export const v = 1 } } import X = A.B.v; let t = X;"},
+	{"namespace A { export type T = 1; export const v = 2 } import X = A.T; import Y = A.v; let t: X = Y;", "namespace A { export type T = 1; export const v = 2 } import Y = A.v; let t = Y;"},
+	{"declare namespace Types { namespace Inner { class Box {} } } namespace App { import Box = Types.Inner.Box; export function f(b?: Box) { return 1 } }", "namespace App { export function f(b) { return 1 } }"},
 	{"namespace A { export namespace B { export const v = 1 } } export import X = A.B.v; let t: number;", "namespace A { export namespace B { export const v = 1 } } export import X = A.B.v; let t;"},
 }
 
@@ -109,9 +110,6 @@ func glueGrid(st *Stats) {
 			}
 		}
 		for _, p := range typedUntypedPairsTS {
-			if withSyntax && strings.Count(p.ts, "import ") >= 2 {
-				continue // adjacent import-equals under minify-syntax: known finding L (replayed separately)
-			}
 			a, ea := transformText(p.js, mk(api.LoaderTS))
 			if ea != "" {
 				st.Histogram["grid-untyped-invalid"]++
